@@ -22,6 +22,13 @@ TICK = 1e-6
 _REAL_MONOTONIC = _time.monotonic
 
 
+class SimBudgetExceeded(HarnessError):
+    """The event loop ran more iterations than any legitimate scenario needs (runaway busy loop)."""
+
+
+MAX_ITERATIONS = 300_000
+
+
 class VClock:
     def __init__(self, t: float = T0) -> None:
         self.t = t
@@ -37,6 +44,7 @@ class VSelector(selectors.BaseSelector):
         self.clock = clock
         self._map: Dict[Any, selectors.SelectorKey] = {}
         self.loop: Optional['VLoop'] = None
+        self.iterations = 0
 
     def register(self, fileobj, events, data=None):
         key = selectors.SelectorKey(fileobj, fileobj if isinstance(fileobj, int) else fileobj.fileno(), events, data)
@@ -51,6 +59,9 @@ class VSelector(selectors.BaseSelector):
         return self.register(fileobj, events, data)
 
     def select(self, timeout=None):
+        self.iterations += 1
+        if self.iterations > MAX_ITERATIONS:
+            raise SimBudgetExceeded(f'more than {MAX_ITERATIONS} event-loop iterations in one case (busy loop in virtual time)')
         if timeout is None:
             raise HarnessError('virtual deadlock: nothing scheduled and nothing ready while the harness is still waiting')
         if timeout > 0:
